@@ -323,10 +323,19 @@ move_thdir_to_final(const char *thdir, const char *thdir_final)
 
 	struct dirent *dirent;
 	const char *prefix = "stream.";
+	const char *metaname = "stream.json";
+	int has_meta = 0;
 	while ((dirent = readdir(dir)) != NULL) {
 		/* It should only contain stream.* directories, skip others */
 		if (strncmp(dirent->d_name, prefix, strlen(prefix)) != 0)
 			continue;
+
+		/* The metadata marks the stream as finished, so it cannot be
+		 * in the final directory before the events: move it last */
+		if (strcmp(dirent->d_name, metaname) == 0) {
+			has_meta = 1;
+			continue;
+		}
 
 		char thread[PATH_MAX];
 		if (snprintf(thread, PATH_MAX, "%s/%s", thdir,
@@ -353,6 +362,19 @@ move_thdir_to_final(const char *thdir, const char *thdir_final)
 	}
 
 	closedir(dir);
+
+	if (has_meta && ret == 0) {
+		char meta[PATH_MAX];
+		char meta_final[PATH_MAX];
+		if (snprintf(meta, PATH_MAX, "%s/%s", thdir, metaname) >= PATH_MAX
+				|| snprintf(meta_final, PATH_MAX, "%s/%s", thdir_final,
+					metaname) >= PATH_MAX) {
+			err("snprintf: path too large: %s/%s", thdir, metaname);
+			ret = 1;
+		} else if (move_thread_to_final(meta, meta_final) != 0) {
+			ret = 1;
+		}
+	}
 
 	/* Warn the user, but we cannot do much at this point */
 	if (ret)
